@@ -98,6 +98,15 @@ class Session:
         e = ast.parse(expr, mode="eval").body
         return b.ev(e, dict(binding), Ctx(self._refmod, None, None))
 
+    def refprog(self, b: Builder, src: str, binding: dict) -> dict:
+        """Run a straight-line reference program (assignments) and return its environment."""
+        import textwrap
+
+        tree = ast.parse(textwrap.dedent(src))
+        env = dict(binding)
+        b.run(tree.body, env, Ctx(self._refmod, None, None))
+        return env
+
     # -- obligations -----------------------------------------------------------
     def ob(self, rule: str, construct: str, ok: bool, fact: str, loc: str = "", key: str = "", detail: str = "",
            necessary_for: str = ""):
@@ -162,18 +171,45 @@ def diff_terms(a, b):
 
 # ----------------------------------------------------------------------------- known findings
 def load_known() -> list[dict]:
+    """JSON lines = known findings; `fixed: property=<id> <commit> <what>` lines are records only."""
     out = []
     if os.path.exists(KNOWN_FILE):
         with open(KNOWN_FILE) as f:
             for line in f:
                 line = line.strip()
-                if line and not line.startswith("#"):
+                if line.startswith("{"):
                     out.append(json.loads(line))
     return out
 
 
 def slug(s: str) -> str:
     return re.sub(r"[^A-Za-z0-9_.-]+", "_", s)[:80]
+
+
+def analyse(prop: str, prog: Program, tier: str = "quick"):
+    """Run a property's rules on a Program; returns (session | None, error text | None)."""
+    import importlib
+
+    mod = importlib.import_module(f"lerax_sa.rules.{prop}")
+    s = Session(prog, prop, tier)
+    try:
+        mod.check(s)
+    except AnalysisError as e:
+        return s, f"ANALYSIS-ERROR {e}"
+    except Exception as e:  # noqa: BLE001
+        return s, f"ANALYSIS-ERROR internal {type(e).__name__}: {e}"
+    return s, None
+
+
+def new_findings(s: Session) -> list[dict]:
+    """Findings not listed as known."""
+    known = [k for k in load_known() if k.get("property") == s.prop and k.get("status") == "known"]
+    out = []
+    for f in s.findings:
+        if any(k["rule"] == f["rule"] and k["construct"] == f["construct"] and k.get("key", f["key"]) == f["key"] for k in known):
+            continue
+        out.append(f)
+    return out
 
 
 # ----------------------------------------------------------------------------- driver
